@@ -228,8 +228,12 @@ inline bool mutate(std::vector<OutPdu> &r, int mut, int pos, int ver, const std:
 	}
 	case M_LEN_BIG: {
 		size_t i = (size_t)pos % n;
-		static const uint32_t big[] = {3249, 4096, 65536, 0x7fffffff, 0x80000000u, 0xffffffffu};
-		wire::set32(r[i].b, 4, big[seed % 6]);
+		// boundary values just above the client's maximum come with as many bytes as they claim, so that a
+		// client which accepts the header has something to read into its buffer
+		static const uint32_t big[] = {3249, 3250, 3252, 3255, 3256, 3257, 3264, 4096, 65536, 0x7fffffff, 0x80000000u, 0xffffffffu};
+		uint32_t v = big[seed % 12];
+		if (v <= 4096) r[i].b.resize(v, (uint8_t)(0xA5 ^ seed));
+		wire::set32(r[i].b, 4, v);
 		return true;
 	}
 	case M_LEN_INCONSISTENT: { // declared length == bytes present, but wrong for the type
